@@ -17,7 +17,7 @@ import (
 func init() { register("C04", runC04) }
 
 func runC04(c *Ctx) {
-	c.Rule = "(A) file logs: generated record lists appended through the real filelog engine, the file cut at every byte offset of the tail record (and mid-file), read back with ReadAll and StreamAll, compared with the Lean reader and with 'exactly the complete records'; (B) real server processes: a workload of repo/DAG/key-value/label operations, the process killed immediately before and immediately after the N-th store write for sampled (thorough: all) N, restarted, then killed again during recovery start-up and restarted; after recovery every acknowledged operation must be visible, the interrupted one entirely present or absent, the manager state well formed. non-trivial = a torn tail or a crash point inside a multi-write operation; distinct by (records, cut) / (crash point, mode)"
+	c.Rule = "(A) file logs: generated record lists appended through the real filelog engine, the file cut at every byte offset of the tail record (and mid-file), read back with ReadAll and StreamAll, compared with the Lean reader and with 'exactly the complete records'; (B) real server processes: a workload of repo/DAG/key-value/label operations, the process killed immediately before and immediately after the N-th store write for all N, restarted, then killed again during recovery start-up and restarted; after recovery every acknowledged operation must be visible, the interrupted one entirely present or absent, the manager state well formed. non-trivial = a torn tail or a crash point inside a multi-write operation; distinct by (records, cut) / (crash point, mode)"
 	quietLogs()
 	c04FileLog(c)
 	c04Crash(c)
@@ -352,17 +352,10 @@ func c04Crash(c *Ctx) {
 	for w := startupWrites + 1; w <= total; w++ {
 		points = append(points, cp{w, "CRASH_AT"}, cp{w, "CRASH_AFTER"})
 	}
-	if !c.Thorough {
-		for i := len(points) - 1; i > 0; i-- {
-			j := r.Intn(i + 1)
-			points[i], points[j] = points[j], points[i]
-		}
-		if len(points) > 36 {
-			points = points[:36]
-		}
-	}
+	// every store write of the workload is a crash point in both tiers (before and after it); the quick tier
+	// adds the second crash during recovery for a sample only
 	for _, p := range points {
-		c04OneCrash(c, ops, writesAt, snaps, p.w, p.mode, r.Chance(0.5) || c.Thorough)
+		c04OneCrash(c, ops, writesAt, snaps, p.w, p.mode, r.Chance(0.2) || c.Thorough)
 	}
 }
 
